@@ -301,6 +301,8 @@ where
         failure_persistence: None,
         rng_seed: RngSeed::Fixed(seed),
         max_shrink_iters: 4000,
+        // a wall-clock cap on *shrinking* only (the failure is already established; the cap never decides a verdict)
+        max_shrink_time: 90_000,
         max_global_rejects: 1 << 30,
         ..Config::default()
     };
